@@ -138,9 +138,13 @@ PROPS["C15"] = dict(
 )
 
 PROPS["C01"] = dict(
-    modules=["Hpbf.Props.C01", "Hpbf.Props.C01Opt"],
+    modules=["Hpbf.Props.C01", "Hpbf.Props.C01Opt", "Hpbf.Props.C01Dse"],
     theorems=t("Hpbf.C01", "C01_parse_ok_of_tree parse_forward parse_backward parse_never_interrupted parse_prefix "
                "C01_odd_step_reaches_zero canonical_odd_loop_zeroes canonical_odd_loop_zeroes_src canonical_folded_loop_zeroes") +
+             t("Hpbf.C01Dse", "eliminate_lockstep eliminate_preserves analSound_limited eliminate_preserves_limited "
+               "eliminate_preserves_straightline never_interrupted tape_may_differ eliminate_total eliminate_none_iff "
+               "eliminate_shape analSound_of_check atLeast_necessary atMost_necessary reads_necessary shift_necessary "
+               "shift_rec_necessary duplicate_targets_unsound") +
              t("Hpbf.C01Opt", "iter_eq geo_mul_pred tri_closed tri_loop tripCount_some tripCount_none tripCount_complete "
                "tripInv_some tripInv_tripCount tripInv_mul tripInv_some_odd tripInv_none_iff geomSum_spec geomSum_fold "
                "affine_iter affine_loop triStep_cases triStep_branch0 triStep_branch1 triStep_branch1_toNat triStep_branch2 "
@@ -166,9 +170,20 @@ PROPS["C01"] = dict(
           "(geomSum_spec, affine_loop); each of the three halving alternatives of the triangular closed form equals the "
           "sum the loop would accumulate (triStep_branch1..3), unconditionally for the two trip-count shapes the "
           "optimizer produces (triStep_val_sound, triStep_invvar_sound), and a witness shows the halving of the trip "
-          "count would be wrong for any other shape (triStep_branch2_needs_exact_half).",
-    not_proved="optimize (levels 1..3) has no complete Lean model: its hash-order dependent plumbing (state tracking, "
-               "symbolic substitution, emission order) is not ported, only its arithmetic cores are. For levels >= 1 "
+          "count would be wrong for any other shape (triStep_branch2_needs_exact_half). The optimizer's IR-level DEAD "
+          "STORE ELIMINATION (the pass between rebuild rounds at levels 2 and 3; exact model OptDse.eliminate) is proved "
+          "behaviour preserving for every IR program and every analysis that is sound in a stated semantic sense "
+          "(AnalSound: has_shift syntactic, at_least_once / at_most_once / reads as facts about the reachable "
+          "configurations) and free of duplicate targets: lockstep, same fuel and budget, same events/pointer/environment, "
+          "limited and unlimited (eliminate_lockstep, eliminate_preserves, eliminate_preserves_limited); the final tape may "
+          "differ (witness); every hypothesis is shown necessary by a witness, including that a calc with a repeated "
+          "target WOULD be miscompiled (duplicate_targets_unsound; the optimizer never builds one); totality = shape "
+          "agreement (eliminate_none_iff).",
+    not_proved="optimize (levels 1..3) has no complete Lean model: the rebuild round (state tracking, symbolic "
+               "substitution, loop motion plumbing, hash-order dependent emission order) is not ported; modelled and proved are "
+               "its arithmetic cores and its dead store elimination pass, whose soundness hypotheses (AnalSound, "
+               "NoDupTargets) are facts about the unmodelled rebuild round and are TESTED on every run (dsefacts: the "
+               "verified boolean checker C01Dse.checkSound on the real analysis of every sampled program). For levels >= 1 "
                "the universal statement is NOT discharged; it is checked per program by comparing IR interpreter, bytecode "
                "interpreter and JIT at levels 0,1,2,3,4,7 (limited and unlimited) with the PROVED canonical semantics, "
                "on structured programs that exercise trip counts and closed forms; 'levels above 3 behave like level 3' "
@@ -562,8 +577,14 @@ PROPS["C13"] = dict(
 )
 
 PROPS["C02"] = dict(
-    modules=["Hpbf.Props.C02", "Hpbf.Props.C02Emit", "Hpbf.Props.C02Dse", "Hpbf.Props.C11", "Hpbf.Props.C07"],
-    theorems=t("Hpbf.C02", "dse_run dse_behEqIO dsePre_iff_check deadStoreElim_cert deadStoreElim_preserves dsePre_of_emit "
+    modules=["Hpbf.Props.C02", "Hpbf.Props.C02Emit", "Hpbf.Props.C02Dse", "Hpbf.Props.C02Alloc", "Hpbf.Props.C11", "Hpbf.Props.C07"],
+    theorems=t("Hpbf.C02", "allocateTemps_preserves allocateTemps_latePre") +
+             t("Hpbf.C02.Alloc", "sim_step trace_of_allocateTemps trace_inv repl_stable allocPreB_sound alloc_flow_necessary "
+               "alloc_ptr_necessary alloc_writes_necessary alloc_fuse_first_use_necessary alloc_fuse_nojump_necessary "
+               "alloc_firstLt_necessary alloc_shrunk_extension_panics allocPre_of_dseLike deadStoreElim_dseLike") +
+             t("Hpbf.C02.AEmit", "linv_of_emit region_of_emit flowBack_of_emit flowFwd_of_emit ptr_of_emit emitRest_of_emit "
+               "allocPre_of_emitState allocPre_of_emit allocateTemps_of_emit") +
+             t("Hpbf.C02", "dse_run dse_behEqIO dsePre_iff_check deadStoreElim_cert deadStoreElim_preserves dsePre_of_emit "
                "deadStoreElim_preserves_of_emit dse_stopped_tape_differs dse_not_obsEq' dse_stopped_tape_differs_reachable "
                "dse_noMemZero_necessary dse_bookkeeping_necessary") +
              t("Hpbf.C02", "translateE_factors emitOnly_eq noOnce_onceOk emit_forward emit_forward_noOnce emit_backward "
@@ -578,6 +599,7 @@ PROPS["C02"] = dict(
     profiles=["debug", "release"],
     streams=[dict(suite="bcgen", quick=60, thorough=4000, judge="tie"),
              dict(suite="irgen", quick=1500, thorough=80000, judge="tie"),
+             dict(suite="oncechk", quick=250, thorough=20000, judge="tie"),
              dict(suite="bcrun", quick=60, thorough=3000, judge="bcrun"),
              dict(suite="e2e", quick=1200, thorough=40000, thorough_seeds=3, judge="program")],
     corpus=["programs"], corpus_judge="program",
@@ -592,6 +614,11 @@ PROPS["C02"] = dict(
           "failure between a removed store and its overwrite sees a different tape, witness proved) for every state "
           "satisfying the decidable precondition DsePre, and the emission's output satisfies DsePre "
           "(deadStoreElim_preserves, dsePre_of_emit); each part of DsePre is shown necessary by a witness. "
+          "(1c) temporary allocation (register/spill assignment, operand forwarding, live bitmaps) preserves behaviour "
+          "(BehEq: events, tape, pointer, budget, limited and unlimited) for every state satisfying the nine-clause "
+          "precondition AllocPre (allocateTemps_preserves), and AllocPre holds UNCONDITIONALLY for the emission's output "
+          "after dead-store elimination, for every IR program (allocPre_of_emit, allocateTemps_of_emit); no two live values "
+          "ever share a physical temporary; six clauses are shown necessary by witnesses. "
           "(2) the three LATE passes preserve "
           "behaviour for every bytecode program meeting their precondition — parameter reordering (runs are equal), "
           "noop stripping with branch re-targeting (both directions, limited and unlimited), zeroing-move fusion given "
@@ -600,8 +627,10 @@ PROPS["C02"] = dict(
           "instruction) and release (tested at entry) dispatch loops compute the same result (runDebug_eq_run); "
           "contract-checked bytecode never reaches an unimplemented form and is independent of uninitialised/dead "
           "temporaries (C11); limited mode is a faithful prefix (C07).",
-    not_proved="the temporary allocation phase of translate preserving "
-               "behaviour (in progress), the composition of the phase theorems into one statement, totality of the emission (that the generator's panic sites are unreachable: every theorem takes "
+    not_proved="the composition of the four phase theorems into one statement (each phase's precondition is proved "
+               "for the previous phase's output except TargetsOk of the emitted code, which the per-run checker establishes), "
+               "panic-freedom of allocate_temps (a hand-built state satisfying AllocPre makes it panic: "
+               "alloc_shrunk_extension_panics; never wrong code), totality of the emission (that the generator's panic sites are unreachable: every theorem takes "
                "`emitOnly blk fuse = .ok p` as hypothesis), and that the optimizer only marks loops `once` when OnceOk holds, "
                "are not theorems; they are established per program: translate's "
                "output equals the pure Lean function BcGen.translate EXACTLY (also on random IR not reachable from the parser), "
@@ -611,42 +640,59 @@ PROPS["C02"] = dict(
     rule="bcgen: bytecode text of translate vs BcGen.translate for generated programs x 4 widths x levels 0-3 x settings "
          "(2,fuse) (11,no) (12,no) (3,fuse); irgen: random IR built directly (squares, repeated variables, zero stores, "
          "simultaneous assignments up to 16, ifs, shifts): exact generator tie + execution of loop-free IR on three "
-         "executors vs Ir.run; bcrun: threaded interpreter vs Bc.run (events, window, remaining budget, final (size, "
+         "executors vs Ir.run; oncechk: the hypothesis OnceOk of the emission theorems tested on the Lean run of the optimized IR "
+         "of generated programs (every loop the optimizer marks `once` is entered with a non-zero condition); bcrun: threaded interpreter vs Bc.run (events, window, remaining budget, final (size, "
          "offset)); e2e: all back ends x levels vs canonical; harness built in debug AND release profile.",
     trusted_base=["release builds rely on LLVM emitting tail calls in the threaded interpreter (observed, not proved)"],
 )
 
 
 PROPS["C03"] = dict(
-    modules=["Hpbf.Props.C03", "Hpbf.Props.C11"],
-    theorems=t("Hpbf.C03", "selector_sound_copy selector_sound_add selector_sound_sub selector_sound_mul selector_sound "
+    modules=["Hpbf.Props.C03", "Hpbf.Props.C03Flow", "Hpbf.Props.C11"],
+    theorems=t("Hpbf.C03", "layout_decompose layout_locs layout_instr_at layout_epilogue_at layout_jcc_target layout_term_target "
+               "layout_epilogue layout_skip8 layout_saved_regs layout_item_size layout_items_size prog_fetch_fast prog_fetch "
+               "flow_plain_block flow_arith_slots flow_brz_brnz flow_limit_interrupted flow_mov flow_mov_safe flow_arith_instr "
+               "flow_input flow_output flow_saved_regs flow_prologue flow_epilogue flow_init_state prog_simulation "
+               "prog_run_from prog_run") +
+             t("Hpbf.C03", "selector_sound_copy selector_sound_add selector_sound_sub selector_sound_mul selector_sound "
                "selector_sound_on block_sound rel_satisfiable execAll_app encode_ne_nil f6_add_stack_imm_wrong "
                "f6_add_big_imm_reg_wrong f6_add_big_imm_stack_wrong f6_mul_stack_mem_mem_wrong f6_mul_stack_self_wrong") +
              t("Hpbf.C11", "check_live_dead check_init_independent check_window"),
     streams=[dict(suite="jitgen", quick=25, thorough=2000, judge="tie"),
              dict(suite="jitrun", quick=120, thorough=6000, judge="tie"),
+             dict(suite="x86prog", quick=150, thorough=8000, judge="tie"),
              dict(suite="irgen", quick=1500, thorough=80000, judge="tie"),
              dict(suite="e2e", quick=1500, thorough=50000, thorough_seeds=3, judge="program")],
     corpus=["programs", "jitforms"], corpus_judge="program",
-    scope="Proved for every width in {8,16,32,64}, every operand (all indices, offsets, immediates, live bitmaps): for each "
-          "copy/add/sub/mul bytecode instruction for which the selector emits code, executing that code in the x86 "
-          "semantics from a state related to the bytecode configuration (register temporaries = low w bits of r12..r11, "
-          "stack temporaries = [rsp+8t], tape = [rbp+..]) ends in a state related to the bytecode result, preserving "
-          "every temporary that is live or is the destination, and rbx/rbp/rsp (selector_sound); straight-line blocks "
-          "compose (block_sound). The five arms repaired in F6 are proved wrong in their original form on concrete "
-          "states. The machine code is EXACTLY the encoding of the modelled instruction lists (jitgen tie), and the x86 "
-          "semantics reproduces this CPU on every operand-kind combination (jitsem).",
-    not_proved="control flow (brz/brnz relocation, limit check), Mov with its probe sequence, the runtime calls of inp/out "
-               "(register saving, stack alignment), prologue/epilogue and the whole-program simulation are NOT theorems: "
-               "they are covered by the exact code-generation tie, by executing the bytecode of generated programs "
-               "(incl. wide ones with stack temporaries) on the CPU vs Bc.run, and by end-to-end comparison with the "
-               "proved canonical semantics; that generated bytecode satisfies the side conditions (liveness chain) "
-               "follows per program from the verified checker (C11), not yet linked in Lean",
+    scope="WHOLE-PROGRAM simulation, proved on the exact Lean port of the code generator (JitGen.compileX86) and an "
+          "executable program-level x86 machine (X86Prog: byte-addressed code, flags, push/pop, rel8/rel32 jumps, the three "
+          "runtime calls as atomic transitions that clobber every caller-saved register): prog_run — for every bytecode "
+          "program that passes the verified contract checker (BcWf.check p 11) and compiles, from the entry state the "
+          "machine code returns 1 / 0 / 0 exactly when Bc.run is done / stopped / interrupted, with the same events, "
+          "environment, tape and budget, callee-saved registers restored; unfinished runs have the same events "
+          "(prog_simulation, prog_run_from). This covers brz/brnz and the limit check, checked and unchecked mov with its "
+          "probe and the call to the growth routine, inp/out with register saving and 16-byte stack alignment, prologue "
+          "and epilogue, stack temporaries, and uses the C11 liveness facts to re-synchronise clobbered dead registers. "
+          "Relocation is proved exact (layout_jcc_target, layout_term_target: no i32 wrap below 2^31 bytes of code; "
+          "layout_skip8: the rel8 skip over the growth call is at most 76 bytes for every live mask). Per instruction, "
+          "for every width in {8,16,32,64} and every operand (all indices, offsets, immediates, live bitmaps): "
+          "selector_sound for copy/add/sub/mul incl. stack temporaries and 64-bit immediates; the five arms repaired in "
+          "F6 are proved wrong in their original form. The machine code is EXACTLY the encoding of the modelled "
+          "instruction lists (jitgen tie), X86Sem reproduces this CPU on every operand-kind combination (jitsem), and "
+          "X86Prog reproduces this CPU on whole programs in unlimited and limited mode incl. the remaining budget (x86prog).",
+    not_proved="hypotheses of prog_run that are not discharged for all programs: code size < 2^31, tape offsets and mov "
+               "shifts inside i32, allocation below 2^40 cells (NoOOM), the contract check BcWf.check (run per program by "
+               "the C11 check, not proved for every output of translate). The encoder (X86 -> bytes) and the ISA semantics "
+               "are validated against the CPU, not proved. Known deviations of the JIT in LIMITED mode, outside C03's "
+               "statement: no budget test at entry (with budget 0 a branch-free program still runs), the budget cell keeps "
+               "0 or 1 after an interrupt, an I/O stop returns 0 like an interrupt",
     rule="jitgen: machine-code bytes of print_mc vs JitGen.compile for ALL 126 400 one-instruction forms (dst x src x src "
          "kinds x 5 live bitmaps x 4 widths, incl. the forms for which the Rust panics with unimplemented!) and for program "
          "bytecode in three modes; jitrun: 22 864 normal-form one-instruction experiments EXECUTED by the JIT on this CPU "
          "(operands initialised, destination and live sources observed through the tape) vs Bc.run, the same CPU results "
-         "vs the x86 semantics (jitsem), and whole programs (1/3 wide programs that need > 11 live values); irgen: random "
+         "vs the x86 semantics (jitsem), and whole programs (1/3 wide programs that need > 11 live values); x86prog: the bytecode "
+         "of generated programs x levels 0-3 run by the real JIT (unlimited, small budget, ample budget) vs X86Prog on "
+         "compileX86 of the same bytecode: events, verdict, remaining budget; irgen: random "
          "IR executed on all three executors; e2e: vs canonical incl. wide programs. Distinct = distinct requests.",
     trusted_base=["X86Sem is my reading of the ISA at the JIT's abstraction (validated against this CPU on every run)",
                   "shim addresses are masked in the machine-code comparison"],
